@@ -257,3 +257,26 @@ Definition encoding_ok (contents : list kv) (encoded : bytes) : bool :=
   | Some l => option_eqb (list_eqb strpair_eqb) (decode_enc encoded) (Some l)
   | None => true
   end.
+
+(** ** Clause 8: iterators.  [c] = the contents of the set (or of the merged iteration), [p] = number
+    of Next calls made so far.  ToSlice returns the whole contents in order whatever the position; Len
+    never changes; the p-th Next (p <= |c|) reports true and Attribute / IndexedAttribute then give
+    element p-1 (index p-1), each element once, in order; Next reports false from |c|+1 on.  What
+    Attribute returns before the first Next / after exhaustion, and where the iterator stands after a
+    ToSlice, is not specified ([defined] turns false at a ToSlice). *)
+Fixpoint iter_ok (c : list kv) (p : nat) (defined : bool) (ops : list iop) (obs : list iobs) : bool :=
+  match ops, obs with
+  | [], [] => true
+  | INext :: r, ONext b :: o =>
+      (if defined then Bool.eqb b (Nat.leb (S p) (length c)) else true) && iter_ok c (S p) defined r o
+  | IAttr :: r, OAttr x :: o =>
+      (if defined && Nat.leb 1 p && Nat.leb p (length c) then kv_eqb x (nth (p - 1) c zero_kv) else true)
+      && iter_ok c p defined r o
+  | IIndexed :: r, OIndexed i x :: o =>
+      (if defined && Nat.leb 1 p && Nat.leb p (length c)
+       then (i =? Z.of_nat p - 1)%Z && kv_eqb x (nth (p - 1) c zero_kv) else true)
+      && iter_ok c p defined r o
+  | ILen :: r, OLen n :: o => (n =? N.of_nat (length c)) && iter_ok c p defined r o
+  | IToSlice :: r, OSlice l :: o => kvs_eqb l c && iter_ok c p false r o
+  | _, _ => false
+  end.
